@@ -854,6 +854,9 @@ class Emitter:
         return 'self'
 
     def x_MemberExpr(self, n, ctx):
+        if n.get('name') == 'npos':
+            self.fire('E7_npos')
+            return '((size_t)-1)'    # std::string::npos reached through an object expression
         base = n['inner'][0]
         b = self.expr(base, ctx)
         if n.get('isArrow'):
